@@ -63,6 +63,9 @@ func printable(v any) (string, error) {
 		return x, nil
 	case int:
 		return strconv.Itoa(x), nil
+	case int8, int16, int32, int64, uint, uint8, uint16, uint32, uint64, float32, float64:
+		// a number prints as fmt.Sprint of the Go value, wherever it is read (boundary values of family B)
+		return fmt.Sprint(x), nil
 	}
 	return "", fmt.Errorf("value %#v is not printed by this check", v)
 }
